@@ -35,6 +35,12 @@ def suppress_cm():
     return (enter, exit_)
 
 
+def concrete_list(c, a, k):
+    if not isinstance(a[0], (list, tuple, dict, set, frozenset, str, range)):
+        raise Unsupported("list() of a symbolic value")  # (iterating a z3 sequence term never ends)
+    return list(a[0])
+
+
 class Member:
     """Contract of the recursive call for one element type: accepts (returns a fresh adapted value) or raises."""
 
@@ -155,6 +161,8 @@ def ts_setup(ctx):
         x = a[0]
         if isinstance(x, Rec) and x.cls == "set":
             return list(x.attrs["items"])
+        if not isinstance(x, (list, tuple, dict, set, frozenset, str, range)):
+            raise Unsupported("list() of a symbolic value")  # (iterating a z3 sequence term never ends)
         return list(x)
 
     def set_model(c, a, k):
@@ -228,7 +236,7 @@ def list_setup(ctx):
         return c.choose(2, f"{sub.name}-accepts-{v}") == 1
 
     ctx.classes.add("NestedArg", ["tuple"])
-    calls = {"adapt_typehints": adapt_model(ctx, accepts_of, log), UNEXPECTED: raise_unexpected, "deepcopy": lambda c, a, k: dict(a[0]), "list": lambda c, a, k: list(a[0])}
+    calls = {"adapt_typehints": adapt_model(ctx, accepts_of, log), UNEXPECTED: raise_unexpected, "deepcopy": lambda c, a, k: dict(a[0]), "list": concrete_list}
     consts = {"sequence_origin_types": (ClassRef("List"), ClassRef("list")), "NestedArg": ClassRef("NestedArg"), "Iterable": ClassRef("Iterable"),
               "mapping_origin_types": (ClassRef("dict"), ClassRef("Dict"))}
     noop = (lambda c, a, k: c.event("enter-dir", a[0]), lambda c, t, e: False)
